@@ -42,6 +42,7 @@ class VerifContext:
         self.call_contracts: dict = {}
         self.noop_functions: set = set()
         self.stmt_hooks: dict = {}
+        self.return_hooks: dict = {}      # function qualname -> callable(interp, env, value): postconditions
         self.loop_specs: dict = {}        # (func qualname, "target in iter") -> LoopSpec
         self.var_types: dict = {}         # (func qualname, var) -> type string
         self.spec_names: dict = {}
